@@ -116,6 +116,14 @@ func C10(c *Ctx) {
 			}
 		}
 		// ---- a2
+		// a function shown equivalent to its optimized twin on normal forms may still name a standard-only
+		// declaration on a path the comparison proved infeasible: what it references is what the twin references
+		if len(equivalentNF) > 0 {
+			refs = peq.References(f0, func(k string) bool { _, nf := equivalentNF[k]; return keepKey(k) && !nf })
+			for k := range peq.References(f1, func(k string) bool { _, nf := equivalentNF[k]; return nf }) {
+				refs[k] = true
+			}
+		}
 		var bad2 []string
 		for _, k := range peq.SortedKeys(i0) {
 			if _, ok := i1[k]; ok {
